@@ -204,7 +204,7 @@ def r4_measurement_outcome(report, repo):
             '%s assigns %s but a path leaves the function without updating '
             '_cached[\'outcome\']: the live view keeps the previous outcome' %
             (f.qualname, norm(node.ast)))
-  report.expect_instances(rule, n, 4, 'outcome assignments in Measurement')
+  report.expect_instances(rule, n, 2, 'outcome assignments in Measurement')
   for meth, what in (('with_validator', 'validators'),
                      ('validate_on', 'conditional validators'),
                      ('with_dimensions', 'dimensions')):
